@@ -176,6 +176,12 @@ pub fn cases(tier: &str, _seed: u64) -> Vec<Case> {
             extra.push((0..n).map(|_| r.pick(&pool).to_vec()).collect());
         }
         names.extend(extra);
+        // deeper names and the special-use zones code is apt to special-case (RFC 6762 12 lists the link-local reverse
+        // zones: they are not `local`)
+        for text in ["7.1.254.169.in-addr.arpa", "254.169.in-addr.arpa", "1.0.0.127.in-addr.arpa", "x.8.e.f.ip6.arpa", "9.e.f.ip6.arpa", "a.e.f.ip6.arpa", "b.e.f.ip6.arpa", "home.arpa", "arpa",
+                     "a.b.c.d.e.f.g.local", "a.b.c.d.e.f.g.h.i.j", "local.example", "local.local", "example.local.", "localhost", "a.localdomain", "_tcp.local", "_services._dns-sd._udp.local", "intranet", "lan", "internal"] {
+            names.push(text.trim_end_matches('.').split('.').map(|l| l.as_bytes().to_vec()).collect());
+        }
     }
     for a in &names {
         for b in &names {
